@@ -62,7 +62,11 @@ func s1(w *World, r *Report) {
 	cv0 := needFn(r, "S-1", w, fref{"node", "", "commonValidation0"})
 	if cv0 != nil {
 		calls := w.callsTo(cv0, fref{pkgCT, "", "VerifyTrxRLP"})
-		if len(calls) != 1 {
+		sigErr := AR(`VerifyTrxRLP\(p0\.Tx, p0\.ChainID\)#2$`, "!=", `^nil$`)
+		if ok, _ := w.gateHolds(cv0, sigErr, TR(`^p0\.Exec$`)); len(calls) != 1 && ok {
+			// the verification sits in a helper: decided on the paths
+			r.OK("S-1", "commonValidation0:VerifyTrxRLP", "with ctx.Exec true, commonValidation0 has no successful path when VerifyTrxRLP(ctx.Tx, ctx.ChainID) reports an error (helpers expanded)", fnSite(w, cv0))
+		} else if len(calls) != 1 {
 			r.Violate("S-1", "commonValidation0:VerifyTrxRLP", fmt.Sprintf("commonValidation0 calls VerifyTrxRLP %d times (expected exactly one)", len(calls)), nil, fnSite(w, cv0))
 		} else {
 			c := calls[0]
@@ -118,7 +122,10 @@ func s1(w *World, r *Report) {
 				}
 			}
 		}
-		if g0 == nil {
+		if ok, _ := w.gateHolds(vt, AR(`VerifyTrxRLP\(p0\.Tx, p0\.ChainID\)#2$`, "!=", `^nil$`), TR(`^p0\.Exec$`)); g0 == nil && ok {
+			// the checks are arranged differently (helpers, a table of steps): decided on the paths
+			r.OK("S-1", "validateTrx:commonValidation0", "with ctx.Exec true, validateTrx reaches no controller and no success return when VerifyTrxRLP(ctx.Tx, ctx.ChainID) reports an error (helpers and steps expanded)", fnSite(w, vt))
+		} else if g0 == nil {
 			r.Violate("S-1", "validateTrx:commonValidation0", "validateTrx does not call commonValidation0(ctx) and return its error", nil, fnSite(w, vt))
 		} else {
 			bad := ""
